@@ -978,6 +978,10 @@ def c07(chk):
 
 def c08(chk):
     quick = chk.tier == "quick"
+    if fixed_sig("begin-between-commit-draws") and fixed_sig("begin-unregistered-during-gc"):
+        # the design as repaired, for any number of committers, snapshots and keys (TLAPS): all-or-none, stable views, the
+        # collector's horizon below every open snapshot; a read that does not wait for the commit's lock breaks the proof
+        tlaps_proof(chk, "proofs/SnapshotProof.tla", guard=("  /\\ sst[s] = \"open\" /\\ lock = \"free\"", "  /\\ sst[s] = \"open\""))
     l2_stage(chk, "begin_vs_commit", dict(L2_BASE, WS1={1, 2}, WithR=True))
     l2_stage(chk, "begin_vs_gc", dict(L2_BASE, WithR=True, WithW=True, WithG=True, OldVersions=2))
     conc_check(chk, programs_c08(), 60 if quick else 800, 12 if quick else 150, 2 if quick else 3)
